@@ -1851,6 +1851,11 @@ fn name_collision(_seed: u64) -> serde_json::Value {
         ("LowMC { block_size } 80 vs 128 on 80-bit blocks", vec![array_type(vec![2, 80], BIT), array_type(vec![128], BIT)], Box::new(|| (CustomOperation::new(LowMC { s_boxes_per_round: 10, rounds: 20, block_size: LowMCBlockSize::SIZE80 }), CustomOperation::new(LowMC { s_boxes_per_round: 10, rounds: 20, block_size: LowMCBlockSize::SIZE128 })))),
         ("Clip2K { k } 3 vs 4", vec![array_type(vec![2, 16], BIT)], Box::new(|| (CustomOperation::new(Clip2K { k: 3 }), CustomOperation::new(Clip2K { k: 4 })))),
         ("GreaterThan { signed } false vs true", vec![array_type(vec![2, 16], BIT), array_type(vec![2, 16], BIT)], Box::new(|| (CustomOperation::new(GreaterThan { signed_comparison: false }), CustomOperation::new(GreaterThan { signed_comparison: true })))),
+        ("two DIFFERENT operations: GreaterThan and GreaterThanEqualTo (same signedness)", vec![array_type(vec![2, 16], BIT), array_type(vec![2, 16], BIT)], Box::new(|| (CustomOperation::new(GreaterThan { signed_comparison: true }), CustomOperation::new(ciphercore_base::ops::comparisons::GreaterThanEqualTo { signed_comparison: true })))),
+        ("two DIFFERENT operations: LessThan and LessThanEqualTo", vec![array_type(vec![2, 16], BIT), array_type(vec![2, 16], BIT)], Box::new(|| (CustomOperation::new(ciphercore_base::ops::comparisons::LessThan { signed_comparison: false }), CustomOperation::new(ciphercore_base::ops::comparisons::LessThanEqualTo { signed_comparison: false })))),
+        ("two DIFFERENT operations: Equal and NotEqual", vec![array_type(vec![2, 16], BIT), array_type(vec![2, 16], BIT)], Box::new(|| (CustomOperation::new(ciphercore_base::ops::comparisons::Equal {}), CustomOperation::new(ciphercore_base::ops::comparisons::NotEqual {})))),
+        ("two DIFFERENT operations: Min and Max", vec![array_type(vec![2, 16], BIT), array_type(vec![2, 16], BIT)], Box::new(|| (CustomOperation::new(ciphercore_base::ops::min_max::Min { signed_comparison: true }), CustomOperation::new(ciphercore_base::ops::min_max::Max { signed_comparison: true })))),
+        ("two DIFFERENT operations: ApproxGelu and ApproxGeluDerivative", vec![i64a.clone()], Box::new(|| (CustomOperation::new(ApproxGelu { precision: 10, approximation_log_buckets: 5 }), CustomOperation::new(ApproxGeluDerivative { precision: 10, approximation_log_buckets: 5 })))),
         ("LongDivision { signed } false vs true", vec![array_type(vec![2], INT32), array_type(vec![2], INT32)], Box::new(|| (CustomOperation::new(LongDivision { signed: false }), CustomOperation::new(LongDivision { signed: true })))),
     ];
     let mut tried = 0; let mut found: Vec<serde_json::Value> = vec![];
